@@ -20,7 +20,7 @@ from .proxies import SBool, SInt, SSeq, SDict, Proxy, cx, _iz
 PENDING, RESULT, EXC, CANCELLED = 0, 1, 2, 3
 
 # value tags: python objects <-> ints
-V_NONE, V_TRUE, V_FALSE = 0, 1, 2
+V_NONE, V_TRUE, V_FALSE, V_INT = 0, 1, 2, 3
 
 
 class SymExc(Exception):
@@ -47,7 +47,8 @@ class Heap:
         self.st = z3.Array(c.fresh_name("st0"), z3.IntSort(), z3.IntSort())
         self.val = z3.Array(c.fresh_name("val0"), z3.IntSort(), z3.IntSort())
         self.exc = z3.Array(c.fresh_name("exc0"), z3.IntSort(), z3.IntSort())
-        self.st0, self.val0, self.exc0 = self.st, self.val, self.exc
+        self.ival = z3.Array(c.fresh_name("ival0"), z3.IntSort(), z3.IntSort())
+        self.st0, self.val0, self.exc0, self.ival0 = self.st, self.val, self.exc, self.ival
         self.unroll = getattr(c, "unroll", False)
         if not self.unroll:
             i = z3.Int("hid")
@@ -79,7 +80,7 @@ class Heap:
         self.objs.append(v)
         return 1000 + len(self.objs) - 1
 
-    def obj_of(self, t):
+    def obj_of(self, t, ref=None):
         t = z3.simplify(t)
         if z3.is_int_value(t):
             n = t.as_long()
@@ -89,6 +90,8 @@ class Heap:
                 return True
             if n == V_FALSE:
                 return False
+            if n == V_INT and ref is not None:
+                return SInt(z3.simplify(z3.Select(self.ival, ref)))
             if 1000 <= n < 1000 + len(self.objs):
                 return self.objs[n - 1000]
         return SVal(t)
@@ -142,7 +145,7 @@ class SFut(asyncio.Future):
             raise asyncio.InvalidStateError("Result is not set.")
         if c.branch(s == EXC):
             raise self._exc_obj()
-        return self._h.obj_of(z3.Select(self._h.val, self.ref))
+        return self._h.obj_of(z3.Select(self._h.val, self.ref), self.ref)
 
     def _exc_obj(self):
         o = self._h.obj_of(z3.Select(self._h.exc, self.ref))
@@ -166,7 +169,11 @@ class SFut(asyncio.Future):
             raise asyncio.InvalidStateError("invalid state")
         h = self._h
         h.st = z3.Store(h.st, self.ref, z3.IntVal(RESULT))
-        h.val = z3.Store(h.val, self.ref, h.tag_of(v))
+        if isinstance(v, SInt) or (isinstance(v, int) and not isinstance(v, bool)):
+            h.val = z3.Store(h.val, self.ref, z3.IntVal(V_INT))
+            h.ival = z3.Store(h.ival, self.ref, _iz(v))
+        else:
+            h.val = z3.Store(h.val, self.ref, h.tag_of(v))
         h.events.append(("set_result", self, v))
 
     def set_exception(self, e):
@@ -257,6 +264,7 @@ class CHeap:
         self.st0 = z3.Array(c.fresh_name("st0"), z3.IntSort(), z3.IntSort())
         self.val0 = z3.Array(c.fresh_name("val0"), z3.IntSort(), z3.IntSort())
         self.exc0 = z3.Array(c.fresh_name("exc0"), z3.IntSort(), z3.IntSort())
+        self.ival0 = z3.Array(c.fresh_name("ival0"), z3.IntSort(), z3.IntSort())
         self.nalloc = 0
 
     def close(self):
@@ -280,12 +288,14 @@ class CHeap:
             s = c.model.eval(z3.Select(self.st0, z3.IntVal(i)), model_completion=True).as_long()
             v = c.model.eval(z3.Select(self.val0, z3.IntVal(i)), model_completion=True).as_long()
             e = c.model.eval(z3.Select(self.exc0, z3.IntVal(i)), model_completion=True).as_long()
+            iv = c.model.eval(z3.Select(self.ival0, z3.IntVal(i)), model_completion=True).as_long()
         else:
             s = c.rng.choice([0, 0, 1, 2, 3])
-            v = c.rng.choice([0, 1, 2, 7])
+            v = c.rng.choice([0, 1, 2, 3, 7])
             e = c.rng.randint(0, 3)
+            iv = c.rng.randint(-2, 9)
         if s == RESULT:
-            f.set_result({0: None, 1: True, 2: False}.get(v, ("val", v)))
+            f.set_result({0: None, 1: True, 2: False}.get(v, iv if v == 3 else ("val", v)))
         elif s == EXC:
             f.set_exception(SymExc(e))
             f.exception()  # mark retrieved (no "never retrieved" log noise)
@@ -311,6 +321,8 @@ def result_is(f, v):
     """future f holds RESULT v (v: None/True/False or a python object)."""
     if isinstance(f, SFut):
         h = f._h
+        if isinstance(v, SInt) or (isinstance(v, int) and not isinstance(v, bool)):
+            return SBool(z3.And(f._st() == RESULT, z3.Select(h.val, f.ref) == V_INT, z3.Select(h.ival, f.ref) == _iz(v)))
         return SBool(z3.And(f._st() == RESULT, z3.Select(h.val, f.ref) == h.tag_of(v)))
     if st(f) != RESULT:
         return False
@@ -432,7 +444,7 @@ class HeapSnap:
         h = heap(c)
         self.sym = c.symbolic
         if self.sym:
-            self.st, self.val, self.exc, self.h = h.st, h.val, h.exc, h
+            self.st, self.val, self.exc, self.ival, self.h = h.st, h.val, h.exc, h.ival, h
         else:
             self.states = {id(f): st(f) for f in h.by_id.values()}
 
@@ -505,6 +517,7 @@ def havoc_heap(c):
     h.st = z3.Array(c.fresh_name("h_st"), z3.IntSort(), z3.IntSort())
     h.val = z3.Array(c.fresh_name("h_val"), z3.IntSort(), z3.IntSort())
     h.exc = z3.Array(c.fresh_name("h_exc"), z3.IntSort(), z3.IntSort())
+    h.ival = z3.Array(c.fresh_name("h_ival"), z3.IntSort(), z3.IntSort())
     i = z3.Int("hid")
     sel = z3.Select(h.st, i)
     c.assume_z3(z3.ForAll([i], z3.And(sel >= 0, sel <= 3), patterns=[sel]))
@@ -548,7 +561,7 @@ def heap_eq(c, snap):
     """current future states == snapshot (frame clause)."""
     h = heap(c)
     if c.symbolic:
-        return SBool(z3.And(h.st == snap.st, h.val == snap.val, h.exc == snap.exc))
+        return SBool(z3.And(h.st == snap.st, h.val == snap.val, h.exc == snap.exc, h.ival == snap.ival))
     return all(st(f) == s for f, s in ((f, snap.states[id(f)]) for f in h.by_id.values() if id(f) in snap.states))
 
 
@@ -608,3 +621,79 @@ def members_sorted(fs):
             return r.as_long() if z3.is_int_value(r) else 0
         return getattr(f, "_pyvc_id", 0)
     return sorted(fs, key=key)
+
+
+# ------------------------------------------------------------------ sequences of ints and of (item, future) pairs
+def int_seq(c, name, kind="deque"):
+    an, ln, hn = c.fresh_name(name + ".arr"), c.fresh_name(name + ".lo"), c.fresh_name(name + ".hi")
+    arr = z3.Array(an, z3.IntSort(), z3.IntSort())
+    if c.symbolic and getattr(c, "unroll", False):
+        n = c.choose(name + ".len", [2, 1, 0, 3])
+        c.assume_z3(z3.And(z3.Int(ln) == 0, z3.Int(hn) == n))
+        items = [SInt(z3.Select(arr, k)) for k in range(n)]
+        return collections.deque(items) if kind == "deque" else list(items)
+    if c.symbolic:
+        lo, hi = z3.Int(ln), z3.Int(hn)
+        c.assume_z3(lo <= hi)
+        return SSeq(arr, lo, hi, lambda t: SInt(t), lambda v: _iz(v), kind)
+    if c.model is not None:
+        lo = c.model.eval(z3.Int(ln), model_completion=True).as_long()
+        hi = c.model.eval(z3.Int(hn), model_completion=True).as_long()
+        items = [c.model.eval(z3.Select(arr, z3.IntVal(k)), model_completion=True).as_long()
+                 for k in range(lo, min(hi, lo + 64))]
+    else:
+        items = [c.rng.randint(-2, 9) for _ in range(c.rng.randint(0, 4))]
+    c.values[name] = items
+    return collections.deque(items) if kind == "deque" else list(items)
+
+
+_PAIR = [None]
+
+
+def pair_sort():
+    if _PAIR[0] is None:
+        d = z3.Datatype("ItemFut")
+        d.declare("mk", ("item", z3.IntSort()), ("fut", z3.IntSort()))
+        _PAIR[0] = d.create()
+    return _PAIR[0]
+
+
+def pair_seq(c, name):
+    """deque of (item:int, future) tuples (Queue._putters)."""
+    h = heap(c)
+    PS = pair_sort()
+    an, ln, hn = c.fresh_name(name + ".arr"), c.fresh_name(name + ".lo"), c.fresh_name(name + ".hi")
+    arr = z3.Array(an, z3.IntSort(), PS)
+    wrap = lambda t: (SInt(z3.simplify(PS.item(t))), SFut(h, z3.simplify(PS.fut(t))))
+    unwrap = lambda p: PS.mk(_iz(p[0]), fut_unwrap(p[1]))
+    if c.symbolic and getattr(c, "unroll", False):
+        n = c.choose(name + ".len", [2, 1, 0, 3])
+        c.assume_z3(z3.And(z3.Int(ln) == 0, z3.Int(hn) == n))
+        items = []
+        for k in range(n):
+            ref = PS.fut(z3.Select(arr, k))
+            c.assume_z3(z3.And(ref >= 0, z3.Select(h.st0, ref) >= 0, z3.Select(h.st0, ref) <= 3))
+            items.append(wrap(z3.Select(arr, k)))
+        return collections.deque(items)
+    if c.symbolic:
+        lo, hi = z3.Int(ln), z3.Int(hn)
+        c.assume_z3(lo <= hi)
+        i = z3.Int("pid")
+        sel = z3.Select(arr, i)
+        c.assume_z3(z3.ForAll([i], PS.fut(sel) >= 0, patterns=[sel]))
+        return SSeq(arr, lo, hi, wrap, unwrap, "deque")
+    if c.model is not None:
+        lo = c.model.eval(z3.Int(ln), model_completion=True).as_long()
+        hi = c.model.eval(z3.Int(hn), model_completion=True).as_long()
+        items = []
+        for k in range(lo, min(hi, lo + 64)):
+            it = c.model.eval(PS.item(z3.Select(arr, z3.IntVal(k))), model_completion=True).as_long()
+            fi = c.model.eval(PS.fut(z3.Select(arr, z3.IntVal(k))), model_completion=True).as_long()
+            items.append((it, fi))
+    else:
+        items = [(c.rng.randint(-2, 9), c.rng.randint(0, 5)) for _ in range(c.rng.randint(0, 3))]
+    c.values[name] = items
+    if any(fi < 0 for _, fi in items):
+        c.assume_failed = True
+        raise core.PathEnd()
+    return collections.deque((it, h.from_id(fi)) for it, fi in items)
